@@ -58,6 +58,8 @@ def gemini_spec(draw, bases=("kl", "tv", "hellinger", "chi2", "mmd", "wasserstei
         gs["a"] = draw(gens.metric_spec(forms=metric_forms or (("named", "precomputed", "randdist") + (("foreign",) if foreign else ()))))
     else:
         gs["a"] = None
+    if foreign and draw(st.integers(0, 3)) == 0:
+        gs["reconf"] = True
     return gs
 
 
@@ -91,6 +93,21 @@ def make_gemini(gs, X, decoy=True):
     else:
         g, A = getattr(G, FDIV[base])(ovo=ovo), None
     label = f"{type(g).__name__}(ovo={ovo}" + (f", {a['form']}:{a['name']}{a['params']})" if a else ")")
+    if gs.get("reconf"):
+        # the object was used in another configuration before (other mode, other epsilon) and then re-configured through its
+        # public attributes: nothing of the first use may survive
+        g.ovo = not ovo
+        g.epsilon = 1e-3
+        rs = np.random.RandomState(7)
+        n = len(X)
+        D0 = rs.dirichlet(np.ones(3), size=max(n, 1))
+        try:
+            g(D0, A, return_grad=bool(rs.randint(2)))
+        except Exception:
+            pass
+        g.ovo = ovo
+        g.epsilon = 1e-12
+        label += " [evaluated before with ovo flipped and epsilon=1e-3, then re-configured]"
     return g, A, label
 
 
